@@ -372,9 +372,18 @@ structure Batch where
   repLv : Levels
   valueChunks : List (List UInt8)
 
-/-- carquet_page_writer_estimated_size, abstracted to what matters: does the page reach the target? -/
-def pageFull (cw : ColumnWriter) : Bool :=
-  cw.pw.values.size + cw.pw.defLevels.size + cw.pw.repLevels.size + 64 ≥ cw.targetPageSize
+/-- bit_width_for_max (static, page_writer.c) -/
+def bitWidthForMax (m : Nat) : Nat := if m = 0 then 0 else Nat.log2 m + 1
+
+/-- carquet_page_writer_estimated_size: booleans and levels are still unpacked, their packed size is estimated;
+64 bytes are added for the header -/
+def pageEstimatedSize (pw : PageWriter) : Nat :=
+  (if pw.isBool then (pw.values.size + 7) / 8 else pw.values.size) +
+  (if pw.defLevels.size / 2 > 0 then 4 + (pw.defLevels.size / 2 * bitWidthForMax pw.maxDef + 7) / 8 else 0) +
+  (if pw.repLevels.size / 2 > 0 then 4 + (pw.repLevels.size / 2 * bitWidthForMax pw.maxRep + 7) / 8 else 0) + 64
+
+/-- `current_size >= writer->target_page_size` in carquet_column_writer_write_batch -/
+def pageFull (cw : ColumnWriter) : Bool := pageEstimatedSize cw.pw ≥ cw.targetPageSize
 
 /-- carquet_column_writer_write_batch -/
 def columnWriteBatch (fin : Payload → PageWriter → M (PageWriter × List UInt8)) (P : Payload) (cw : ColumnWriter) (b : Batch) : M ColumnWriter :=
